@@ -571,7 +571,9 @@ ADD = {
                     "the complete output decodes with nothing left over)."),
     "C08": dict(
         rule="Thorough tier only: suite c08s — a client stops reading for 12 s (and 1 s) in the middle of a 32 MiB response and resumes: exactly that one response must arrive, nothing may follow."),
-    "C09": dict(rule="Half of the cases with a completely sent declared body are followed by a second request on the same connection."),
+    "C09": dict(explanation="Resource bounds as theorems over every state, input, fault and handler behaviour: C09_disk_bound (one read_body_to_file(M) never copies more than M+1 body bytes into its file; "
+                         "model counter `written`), C09_accepted_within_limit (an accepted upload holds at most M bytes, exactly the declared number when declared), C09_mem_bound (a body handed over in memory has at most S bytes).",
+                rule="Half of the cases with a completely sent declared body are followed by a second request on the same connection."),
     "C10": dict(
         rule="Also rst<N>: the client leaves the interim response unread and closes (reset = read error on the server) at the same offsets; suite c10r: the server's permit is revoked while a handler "
              "owns an upload's file (alone and next to other connections): while the handler holds the request the connection must stay, and once a connection has ended its files must be gone."),
